@@ -302,6 +302,7 @@ def compare(kind, p, how, impl, model):
         return None if a == b else f"impl yields {a} vs model {b}"
     if kind == "weighted_value":
         n, d = model["frac"]
+        n *= p.get("wscale", 1)          # the model ran on the integer weights w, the implementation on w / wscale
         exp = (-(n / d)).hex() if n != 0 else (-0.0).hex()
         got = impl["float"]
         if float.fromhex(got) == float.fromhex(exp):
